@@ -25,7 +25,11 @@ def case_st(draw):
         tracks = draw(st.sampled_from([40, 80, 35]))
         spt = 18 if dd else 10
         nsec = tracks * spt
-        total = nsec if nsec <= 1023 else draw(st.sampled_from([1023, 800, 721]))
+        # 80 x 18 = 1440 sectors needs bit 10 of the count (bit 2 of byte 0x106, "large disc"), which the geometry
+        # prober honours; the 10-bit values are the other possibility for such a disc
+        # (Watford DDFS only: the Acorn catalogue validation works with the 10-bit count)
+        total = nsec if nsec <= 1023 else draw(st.sampled_from([nsec, nsec, 1023, 800, 721] if variant == "watford"
+                                                                else [1023, 800, 721]))
         lo = 4 if variant == "watford" else 2
         first = []
         cursor = lo
@@ -39,7 +43,7 @@ def case_st(draw):
             # a first-catalogue file whose start sector has low byte 2
             st_sec = draw(st.sampled_from([s_ for s_ in (0x102, 0x202, 0x302) if s_ + 3 < total]))
             special.append(_ent(b"AT102", st_sec, 600, 2))
-        hi = special[0]["start"] if special else total
+        hi = special[0]["start"] if special else min(total, 1023)       # start sectors are 10 bits
         # up to a completely full catalogue (slot 31 is then the file that starts right after the catalogue)
         room = 31 - len(first) - len(special)
         mid = draw(gen.entries_for(cursor, hi, room if variant != "watford" else min(room, 28), CHARS, None, True, False))
@@ -52,7 +56,7 @@ def case_st(draw):
             above = []
             if special:
                 # everything above the special file goes to the second catalogue
-                top = draw(gen.entries_for(special[0]["start"] + 3, total, 20, [ord(c) for c in "QRSTUVWXYZ"], [ord("W")],
+                top = draw(gen.entries_for(special[0]["start"] + 3, min(total, 1023), 20, [ord(c) for c in "QRSTUVWXYZ"], [ord("W")],
                                            True, False))
                 above = top
             k = draw(st.integers(0, len(ents))) if not special else 0
